@@ -24,6 +24,25 @@ NEEDS = {
  "c17": "input: container whose runtime status is paused/restarting/created",
  "c20": "input: gateway outside the declared subnet with ranges inside the declared subnet",
 }
+
+NEEDS.update({
+ "d01": "interleaving: a resync pass snapshots its checklist, the pod is deleted+unbound and a same-named replacement gets the same IP back, then the pass reaches the stale entry",
+ "d02": "multi-step + topology: app holds >=2 reserved IPs from pools with different node subnets when a replacement pod is filtered",
+ "d03": "input + multi-step: pod with pool annotation AND release-policy immutable; workload deleted/scaled down, then pod deleted (or lost event + resync)",
+ "d05": "fault: a FloatingIP create other than the first of a multi-range allocation fails (first created object is not rolled back)",
+ "d08": "fault: 2nd or later create of a multi-range allocation fails; memory keeps the earlier IPs, retried Bind fails",
+ "d09": "topology + reload: allocation in a pool that is not the first of several pools sharing one pod subnet, then any reload/restart",
+ "d10": "ordering: pod re-created on another node, Bind of the new pod handled before the old pod's delete event (AssignIP before the uid guard)",
+ "d11": "input: pod without owner references that carries a pool annotation",
+ "d12": "interleaving: two containers inside saveNetworkInfo at the same time (shared temp file name)",
+ "d13": "input: pod with >=2 IPs where an untagged (vlan 0) IP follows a tagged one",
+ "d14": "fault: opening a host port other than the first fails (earlier sockets leak; ports already held by the pod are closed)",
+ "d15": "multi-step: ipBlock with except, second sync on converged state (nomatch member deleted every other sync)",
+ "d17": "fault + mode: containerd/CRI mode, status call of a live sandbox fails with a non-NotFound code whose message contains 'not found'",
+ "d18": "input + follow-up: Running pod whose args annotation carries an IP outside the configured pool (read lock leaked), then any write operation",
+ "d19": "interleaving: Bind onto a node whose subnet is not cached (restart/reload between filter and bind) concurrent with Filter of another pod",
+ "d20": "input: multi-address range with exactly one end inside the pool subnet",
+})
 OTHER = {'b02': ['C03', 'C05'], 'a04': ['C10']}
 only = sys.argv[1:]
 for sid, (prop, pkg) in SEEDS.items():
